@@ -92,6 +92,28 @@ def parse_result(text):
     return out
 
 
+def _run_group(cmd, cwd, timeout_s):
+    """run in its own process group so that a timeout also kills the cbmc children"""
+    import signal
+    def _limits():
+        import resource
+        # a CBMC run that needs more than this is a blow-up: let it die instead of taking the sandbox down
+        lim = int(os.environ.get("MQ2_CBMC_MEM_GB", "20")) * 1024 ** 3
+        resource.setrlimit(resource.RLIMIT_AS, (lim, lim))
+    p = subprocess.Popen(cmd, cwd=cwd, env=_env(), stdout=subprocess.PIPE, stderr=subprocess.STDOUT, text=True,
+                         start_new_session=True, preexec_fn=_limits)
+    try:
+        out, _ = p.communicate(timeout=timeout_s)
+        return out, p.returncode
+    except subprocess.TimeoutExpired:
+        try:
+            os.killpg(p.pid, signal.SIGKILL)
+        except Exception:
+            pass
+        p.wait()
+        raise
+
+
 def run_harnesses(harnesses, jobs=16, reach_checks=False, timeout_s=3600, harness_timeout=None, extra=None, keep=False,
                   features="multiqueue2_verif"):
     """harnesses: list of fully qualified harness names.  Returns (results: dict name -> parsed, meta)."""
@@ -101,7 +123,7 @@ def run_harnesses(harnesses, jobs=16, reach_checks=False, timeout_s=3600, harnes
     with Lock():
         d = prepare_scratch()
         try:
-            cmd = ["cargo", "kani", "--features", features, "--output-format=terse", "-Z", "unstable-options",
+            cmd = ["cargo", "kani", "--features", features, "--output-format=terse", "-Z", "unstable-options", "-Z", "stubbing",
                    "--output-into-files", "--exact", "-j", str(max(1, min(jobs, len(harnesses))))]
             if not reach_checks:
                 cmd.append("--no-assertion-reach-checks")
@@ -112,12 +134,9 @@ def run_harnesses(harnesses, jobs=16, reach_checks=False, timeout_s=3600, harnes
             for h in harnesses:
                 cmd += ["--harness", h]
             try:
-                r = subprocess.run(cmd, cwd=d, env=_env(), capture_output=True, text=True, timeout=timeout_s)
-                out = r.stdout + "\n" + r.stderr
-                rc = r.returncode
-            except subprocess.TimeoutExpired as e:
-                out = (e.stdout or b"").decode(errors="replace") if isinstance(e.stdout, bytes) else (e.stdout or "")
-                out += "\nTIMEOUT after %ds" % timeout_s
+                out, rc = _run_group(cmd, d, timeout_s)
+            except subprocess.TimeoutExpired:
+                out = "\nTIMEOUT after %ds" % timeout_s
                 rc = -9
             results = {}
             rdir = os.path.join(d, "result_output_dir")
@@ -149,7 +168,7 @@ def concrete_playback(harness, timeout_s=1500):
         d = prepare_scratch()
         try:
             cmd = ["cargo", "kani", "--features", "multiqueue2_verif", "--exact", "--harness", harness,
-                   "-Z", "concrete-playback", "--concrete-playback=print", "--no-assertion-reach-checks"]
+                   "-Z", "stubbing", "-Z", "concrete-playback", "--concrete-playback=print", "--no-assertion-reach-checks"]
             try:
                 r = subprocess.run(cmd, cwd=d, env=_env(), capture_output=True, text=True, timeout=timeout_s)
             except subprocess.TimeoutExpired:
